@@ -103,8 +103,10 @@ def check_counter(ctx: Ctx, f: FuncInfo, ops: Tuple[str, ...]) -> None:
     ctx.ok("C12-S2", f.where, f"counter: start 0; while not identity: apply {opname} once to the previous result, +1; return counter", lp, f)
 
 
-def perm_literal_name(node: ast.AST) -> Optional[str]:
-    """Perm((0, 1, 2)) -> '123' (1-based classical notation)."""
+def perm_literal_name(node: ast.AST, module=None) -> Optional[str]:
+    """Perm((0, 1, 2)) -> '123' (1-based classical notation); a module-level constant bound to such a literal stands for it."""
+    if isinstance(node, ast.Name) and module is not None and node.id in module.assigns:
+        return perm_literal_name(module.assigns[node.id], None)
     if isinstance(node, ast.Call) and call_name(node) == ("Perm",) and len(node.args) == 1 and isinstance(node.args[0], (ast.Tuple, ast.List)):
         try:
             vals = [int(e.value) for e in node.args[0].elts]  # type: ignore[attr-defined]
@@ -169,9 +171,9 @@ def rule_g1(ctx: Ctx) -> None:
         for g in guards:
             t = g.test
             if isinstance(t, ast.Call) and call_name(t) == (perm, "contains") and len(t.args) == 1:
-                found = (g, perm_literal_name(t.args[0]), False)
+                found = (g, perm_literal_name(t.args[0], f.module), False)
             elif isinstance(t, ast.UnaryOp) and isinstance(t.op, ast.Not) and isinstance(t.operand, ast.Call) and call_name(t.operand) == (perm, "avoids") and len(t.operand.args) == 1:
-                found = (g, perm_literal_name(t.operand.args[0]), False)
+                found = (g, perm_literal_name(t.operand.args[0], f.module), False)
             elif isinstance(t, ast.Call) and call_name(t) == (perm, "avoids"):
                 found = (g, perm_literal_name(t.args[0]) if t.args else None, True)
             elif isinstance(t, ast.UnaryOp) and isinstance(t.op, ast.Not) and isinstance(t.operand, ast.Call) and call_name(t.operand) == (perm, "contains"):
@@ -183,6 +185,24 @@ def rule_g1(ctx: Ctx) -> None:
         if inverted:
             ctx.violation("C12-G1", f, g, f"domain guard before {hname} is inverted: it rejects the permutations *inside* the domain", robust=True)
             continue
+        if lit is None:
+            # Perm.from_string("132") reads the digits as they are (it does not standardise): a one-based spelling is not a permutation of 0..n-1
+            for n in ast.walk(g.test):
+                if isinstance(n, ast.Call) and call_name(n) == ("Perm", "from_string") and len(n.args) == 1 and isinstance(n.args[0], ast.Constant) and isinstance(n.args[0].value, str) \
+                        and n.args[0].value.isdigit():
+                    vals = [int(ch) for ch in n.args[0].value]
+                    if sorted(vals) != list(range(len(vals))):
+                        ctx.violation("C12-G1", f, g, f"the guard before {hname} tests `{unparse(n)}` = Perm({tuple(vals)}), which is not a permutation of 0..{len(vals) - 1} (from_string does not standardise): "
+                                      f"the domain of the {what}, Av({patt}), is not what is checked", robust=True)
+                        break
+                    lit = "".join(str(v + 1) for v in vals)
+            else:
+                if lit is None:
+                    raise AnalysisError(f"{f.where}: the pattern tested by the guard before {hname} (`{unparse(g.test)[:60]}`) is not a literal permutation")
+            if lit is None:
+                continue
+        if False:
+            raise AnalysisError(f"{f.where}: the pattern tested by the guard before {hname} (`{unparse(g.test)[:60]}`) is not a literal permutation")
         if lit != patt:
             ctx.violation("C12-G1", f, g, f"the guard before {hname} tests pattern {lit}; the domain of the {what} is Av({patt})", robust=True)
             continue
